@@ -26,6 +26,9 @@ def main(run):
                           reads=False, p_crash=0.15, p_clean=0.2, p_delete=0.25, foreign=foreign)
     traces += rc.histories(run, ['indep', 'mixed'], range(run.seed * 100 + 50, run.seed * 100 + 50 + (2 if quick else 20)), 14 if quick else 25,
                            reads=False, p_crash=0.1, p_clean=0.25, flavour='async', concurrent=2, foreign=foreign)
+    # one cache directory shared by the keys of several families (a user holding several keys), orphans, cleans by both families in turn
+    traces += rc.histories(run, ['indep', 'mixed', 'chain'], range(run.seed * 100 + 80, run.seed * 100 + 80 + (3 if quick else 20)), 16 if quick else 30,
+                           reads=False, p_crash=0.2, p_clean=0.3, p_delete=0.15, foreign=foreign, session_kw={'cache': '__shared__'})
     rc.validate(run, traces, CLAUSES, label='c08.histories')
     run.coverage['rule'] = ('a case is one command history (key graph x seed, with interrupted commands leaving orphans) or one replayed TLC '
                             'behaviour; non-trivial = more than 10 backend events / more than 2 replayed commands')
